@@ -72,6 +72,14 @@ def run(ctx):
                         ia, ib = sx.render(la[0]['init']).replace(' ', ''), sx.render(lb[0]['init']).replace(' ', '')
                         if ia == ib and ia.endswith('.len()') and la[0].get('l', 0) < lb[0].get('l', 0):
                             ok = True
+                if not ok and sx.is_path(n['args'][0]) and b2.endswith('.len()'):
+                    # begin is a local bound earlier to the very length expression that is the end: `let start = X.len(); .. Range::new(start, X.len())`
+                    # (a String only grows between the two reads unless it is truncated, which the output text never is: X3 writers)
+                    la_ = [st_ for st_ in sx.walk(fn['body']) if st_.get('k') == 'let' and 'init' in st_ and st_.get('pat', {}).get('k') == 'ident' and st_['pat']['n'] == a]
+                    shrink_ = [z for z in sx.walk(fn['body']) if z.get('k') == 'mcall' and z['m'] in ('truncate', 'clear', 'pop', 'drain', 'remove', 'replace_range', 'retain')
+                               and sx.render(z['recv']).replace(' ', '') + '.len()' == b2]
+                    if len(la_) == 1 and sx.render(la_[0]['init']).replace(' ', '') == b2 and (la_[0].get('l') or 0) < (n.get('l') or 0) and not shrink_:
+                        ok = True
                 range_sites.append((fn['name'], n.get('l'), a, b2, ok))
     # Locate::str(arg): arg is the function's text parameter
     str_sites = []
